@@ -17,13 +17,15 @@ META = {
         "propagate unchanged; no Python validate() falls off its end; the "
         "complete decision table of the float range test over the ordering "
         "domain {<,=,>,unordered}; exclude-mask encoding agreement. Not "
-        "decided: enumeration membership, regex/length, numpy dtype/shape."),
+        "decided: enumeration membership, regex/length, numpy dtype conversion."
+        " Also decided: the complete decision table of the Array per-dimension shape test; the compiled validator installed after lazy class resolution belongs to the trait's own handler; Py{Tuple,List}_SET_ITEM only fill containers created on the same path."),
     "C02": dict(level="other", trusted_base=_TB_C + _TB_PY, explanation=_PARTIAL +
         "Decided: the identity pre-filter decision table of setattr_trait / "
         "setattr_event; comparison-mode tables; filter dominance and exception "
         "containment at every user-handler call site; agreement of the legacy "
         "and observe change filters; notifier-list snapshot before the first "
-        "callback. Not decided: per-history call counts."),
+        "callback. Not decided: per-history call counts."
+        " Also decided: a materialised default is silent only when the caller's gate is off or no notifier exists; setattr handlers announce to the accessed trait's notifier list; numeric conversion helpers return an exact-type argument as the same object; as_ctrait leaves the trait type's metadata intact; container notify loops iterate a snapshot."),
     "C03": dict(level="translation_validation", trusted_base=_TB_C + _TB_PY,
         explanation=_PARTIAL +
         "Decided: each stand-alone C validator equals its hand-duplicated arm "
@@ -31,7 +33,8 @@ META = {
         "table / set_validate case labels agree; fast-validate descriptor "
         "shapes built in Python satisfy the C arity checks; C range test equals "
         "the Python range test over the ordering domain; shared float/complex "
-        "primitives. Not decided: equality of conversion results on values."),
+        "primitives. Not decided: equality of conversion results on values."
+        " Also decided: T.set_validate(H.fast_validate) only where H is T's handler on that path; TraitCompound.set_validate fills the Python-order lists and the compiled table in lockstep (a nested compound contributes its whole table at its position)."),
     "C04": dict(level="other", trusted_base=_TB_PY, explanation=_PARTIAL +
         "Decided: every built-in mutator is overridden; only validator output "
         "or own contents reaches an underlying mutation (provenance, path "
@@ -72,13 +75,15 @@ META = {
         "Decided: undo-log completeness over the registration call graph; "
         "add_to/remove_from symmetry; weak-only storage of target and method "
         "owner; __init__/__eq__/__hash__ field agreement. Not decided: the "
-        "n-adds/n-removes algebra, GC timing."),
+        "n-adds/n-removes algebra, GC timing."
+        " Also decided: equals() compares weakly held fields through their referents and the target by identity."),
     "C10": dict(level="other", trusted_base=_TB_C + _TB_PY, explanation=_PARTIAL +
         "Decided: every mutable default kind returns a fresh object; the "
         "Uninitialized sentinel agreement; clone-before-mutate on shared "
         "CTraits; instance traits get their own notifier list; writers of the "
         "class trait dictionary. Not decided: isolation for arbitrary "
-        "operation interleavings."),
+        "operation interleavings."
+        " Also decided: get_trait hands out a class-level trait only when no instance trait was requested."),
     "C11": dict(level="other", trusted_base=_TB_C + _TB_PY, explanation=_PARTIAL +
         "Decided: agreement of the four prefix styles between Delegate."
         "__init__, the C name mappers and the listener pattern over a "
@@ -96,7 +101,8 @@ META = {
         "vs handler tables; effect analysis (constant/disallow/event never "
         "write); read-only write guard; prefix list re-sorted after append; "
         "strict/private class rules. Not decided: resolution for every "
-        "concrete name and hierarchy."),
+        "concrete name and hierarchy."
+        " Also decided: _add_class_trait stores into a class table only after a membership test found the name absent (a subclass's own definition is never replaced)."),
     "C14": dict(level="other", trusted_base=_TB_C + _TB_PY, explanation=_PARTIAL +
         "Decided: lifecycle sibling agreement (has_traits_init, __setstate__, "
         "clone_traits) including both halves of the legacy-listener set-up; "
@@ -128,7 +134,8 @@ META = {
         "discipline (acquire new, store, release old; never released twice; "
         "never overwritten unreleased); retry loops re-read object state; "
         "error discipline. Not decided: whole-program memory safety, "
-        "finalizer re-entrancy."),
+        "finalizer re-entrancy."
+        " Also decided: tp_getset setters test for deletion (NULL) first; results of fallible in-file calls are checked before use; SET_ITEM macros only on containers created on the same path; references received through PyErr_Fetch-style out-parameters are balanced."),
     "C19": dict(level="other", trusted_base=_TB_C + _TB_PY, explanation=_PARTIAL +
         "Decided: validate-then-mutate in containers; compute-then-store in "
         "the C getters/setters; try/finally pairing of notification "
